@@ -151,6 +151,30 @@ def run(ctx):
                             if cc.name in relay_calls or cc.target.endswith("spawn::spawn"):
                                 bad.append(cc.name)
                     ctx.ob("D3", fb.root, f"{c.method}-failure-drops-inbound", loc(t["sp"]), not bad, "failure edge reaches the function end without relaying" if not bad else f"failure edge still reaches {sorted(set(bad))}")
+    # ---------------- D11 a flow that cannot be opened fails now --------------------------------------------------------------------------
+    # while a flow's outbound is being dialled nothing reads its local connection: the application cannot be told and cannot be heard. One attempt
+    # bounded by the connect timeout is the whole wait. A dial that is *repeated behind sleeps* (retry with back-off) multiplies that wait: the
+    # application sees end-of-stream half a minute after the link failed, and a flow whose application has long closed keeps its socket and its
+    # task until the retries run out.
+    n_dial = 0
+    for b in bodies:
+        if not b.defp.startswith("octo_squirrel_client") and not b.defp.startswith("octo_squirrel_server"):
+            continue
+        dials = [blk for (blk, c, t) in b.calls() if c.name in ("TcpStream::connect", "Endpoint::connect", "TlsConnector::connect")]
+        if not dials:
+            continue
+        n_dial += len(dials)
+        sleeps = [(blk, c, t) for (blk, c, t) in b.calls() if c.target.endswith("time::sleep::sleep") or c.target.endswith("time::sleep::sleep_until") or c.name.endswith("Interval::tick")]
+        for dblk in dials:
+            lp = b.innermost_loop(dblk)
+            if lp is None:
+                continue
+            inside = [(blk, c, t) for (blk, c, t) in sleeps if blk in lp[1]]
+            for (blk, c, t) in inside:
+                ctx.ob("D11", b.defp, "dial-is-not-retried-behind-sleeps", loc(t["sp"]), False,
+                       "the flow's outbound is dialled in a loop that sleeps between attempts: for as long as the retries last nobody watches the local connection - the application "
+                       "learns of a dead link only when they run out, and the socket and task of a flow whose application already closed are held until then")
+    ctx.floor("D11", "per-flow dial sites inspected", 3, n_dial)
     # ---------------- D10 a dead link is noticed: the transport's idle timer is not switched off ------------------------------------
     # over QUIC nothing but the idle timer tells a relay that the link has silently died (no FIN, no RST reaches it). QUIC uses the smaller of the
     # two ends' values, so disabling it is harmless at one end alone and fatal when both do it: the flow's task, its socket to the target and
